@@ -199,6 +199,15 @@ def run(ck, replay=None):
             nonlinear = cfg["res"] == 1 or cfg["mod"] == 1
             dtype = rng.choice(["float64", "float32"] if nonlinear else ["float64", "float32", "uint8", "uint16"])
             cases.append((cfg, nextra, rgb, dtype, [rng.randint(1, 4), rng.randint(1, 4)], rng.random() < 0.2))
+        # every pixel type through every route that sets a baseline or a cleaning filter (constructor, update(base=...),
+        # find_cleaning_filter), for colour and scalar images: linear configurations without / with extra baselines
+        lin = [c_ for c_ in scn if c_[0]["res"] == 0 and c_[0]["mod"] == 0]
+        for dt_ in ("uint8", "uint16", "float32", "float64"):
+            for rgb_ in (False, True):
+                for nx_ in (0, 2):
+                    pool_ = [c_ for c_ in lin if c_[1] == nx_]
+                    cfg_, _ = pool_[(len(cases)) % len(pool_)]
+                    cases.append((cfg_, nx_, rgb_, dt_, [2, 3], False))
     events, info = [], {}
     for i, c in enumerate(cases):
         tid = f"r{i}"
